@@ -76,6 +76,12 @@ func newPSWorld(r *prng.R, s *out.Sink, n, t, msgLen int) *psWorld {
 	for i := range parties {
 		parties[i] = uint16(i + 1)
 	}
+	if r.Intn(3) == 0 {
+		// party identifiers from the corners of the 16-bit range
+		parties = pickIDs(r, n)
+		sort.Slice(parties, func(i, j int) bool { return parties[i] < parties[j] })
+		s.Count("complete/corner-identifiers")
+	}
 	d := newDkgRun("ps", parties, t, msgLen)
 	d.reorder = r.Intn(3) != 0
 	if d.reorder && n >= 2 {
